@@ -88,7 +88,7 @@ def confirm(sid, wt="/tmp/wt-coord"):
     def build_and_demo(tag):
         t = sh(f"python3 {ROOT}/tools/pinned_tests.py {wt}")
         res[f"pinned_tests_{tag}"] = t.stdout.strip().split("\n")[-1]
-        c = sh(f"cc -w -O1 -I{wt}/include -I{wt}/src -I{wt}/_build {demo} {wt}/_build/libsoundswallower.a -lm -o {wt}/_build/demo_seeded")
+        c = sh(f"cc -w -O1 -I{wt}/include -I{wt}/src -I{wt}/_build {demo} {meta.get('demo_extra_flags', '')} {wt}/_build/libsoundswallower.a -lm -o {wt}/_build/demo_seeded")
         if c.returncode != 0:
             res[f"demo_{tag}"] = "does not compile: " + c.stdout[-300:]
             return None
